@@ -837,8 +837,7 @@ class Evaluator:
         # ---- refusal of fields that do not fit together
         if lf and rf and err is None:
             if really_different(lv.mesh, rv.mesh):
-                tag = "MESH[D21]" if (op in UFUNC2) else "MESH"
-                self.fail(f"{tag}: {op} accepted two fields that live on different meshes "
+                self.fail(f"MESH: {op} accepted two fields that live on different meshes "
                           f"(n {[int(k) for k in lv.mesh.n]} / {[int(k) for k in rv.mesh.n]}, pmin {[float(x) for x in lv.mesh.region.pmin]} / "
                           f"{[float(x) for x in rv.mesh.region.pmin]}, "
                           f"dims {lv.mesh.region.dims} / {rv.mesh.region.dims})")
@@ -876,11 +875,15 @@ class Evaluator:
             if lab and lv.nvdim > 1 and rv.nvdim > 1:
                 cls = "[D10]"
             elif lab and lv.nvdim == 1 and rv.nvdim == 1:
-                cls = "[D23]"
-        elif is_np_obj(lv) or is_np_obj(rv):
-            cls = "[D22]"
+                cls = "[D24]"
         if (err is None) != (err2 is None):
-            cls = cls if cls == "[D22]" else ""
+            # input class of finding D25: NumPy object on one side, one-component field with an explicit label on the other,
+            # more than one component in the accepted result (the ufunc protocol keeps `self.vdims` unconditionally)
+            fld_, oth, okres = (lv, rv, r if err is None else r2) if lf else (rv, lv, r if err is None else r2)
+            cls = ""
+            if is_np_obj(oth) and isinstance(fld_, df.Field) and fld_.nvdim == 1 and fld_.vdims is not None \
+                    and okres is not None and okres.nvdim > 1 and isinstance(err if err is not None else err2, NotImplementedError):
+                cls = "[D25]"
             self.fail(f"COMM{cls}: a{sym}b {'raises ' + type(err).__name__ if err else 'is accepted'} but b{sym}a "
                       f"{'raises ' + type(err2).__name__ if err2 else 'is accepted'} "
                       f"(a: {describe(lv)}, b: {describe(rv)})")
@@ -890,8 +893,7 @@ class Evaluator:
         d = same_field(r, r2)
         if d:
             only_meta = set(d) <= {"vdims", "vdim_mapping"}
-            only_valid = set(d) <= {"valid"}
-            c = cls if ((cls in ("[D10]", "[D23]") and only_meta) or (cls == "[D22]" and only_valid)) else ""
+            c = cls if (cls in ("[D10]", "[D24]") and only_meta) else ""
             self.fail(f"COMM{c}: a{sym}b and b{sym}a differ in {d}: a{sym}b has vdims {r.vdims} mapping {dict(r.vdim_mapping)} "
                       f"valid-count {int(np.sum(r.valid))}, b{sym}a has vdims {r2.vdims} mapping {dict(r2.vdim_mapping)} "
                       f"valid-count {int(np.sum(r2.valid))} (a: {describe(lv)}, b: {describe(rv)})")
@@ -1306,12 +1308,10 @@ def known(case, text):
     """open known findings, by input class (the class tag is computed from the operands of the failing step)"""
     if text.startswith("COMM[D10]"):
         return "D10"   # + or * between two fields with nvdim>1 whose labels or mappings differ; only labels/mapping differ
-    if text.startswith("MESH[D21]"):
-        return "D21"   # binary ufunc between fields on different meshes is accepted
-    if text.startswith("COMM[D22]"):
-        return "D22"   # NumPy object on the left: __array_ufunc__ does not pass validity on
-    if text.startswith("COMM[D23]"):
-        return "D23"   # two one-component fields with different (explicit) labels: labels of the left operand
+    if text.startswith("COMM[D25]"):
+        return "D25"   # ndarray * labelled one-component field -> NotImplementedError, field * ndarray accepted
+    if text.startswith("COMM[D24]"):
+        return "D24"   # two one-component fields with different (explicit) labels: labels of the left operand; only labels/mapping differ
     return None
 
 
